@@ -147,7 +147,8 @@ class PoolProp:
                    work_cap=rng.choice(["default", "default", None, 1.0, 0.5, 2.0]) if factory else
                    rng.choice(["default", "default", None, 1, 2, 0.5]),
                    res_cap=rng.choice([None, None, 1, 2, 3]), factory=factory,
-                   quota=rng.choice([1, 1, 2, 3]) if factory else None, wait_ready=rng.random() < 0.3, calls=calls)
+                   quota=rng.choice([1, 1, 2, 3]) if factory else None, wait_ready=rng.random() < 0.3, calls=calls,
+                   none_inputs=rng.random() < 0.25)
 
     p_factory = 0.35
     n_calls = [1, 1, 2]
@@ -194,6 +195,8 @@ class PoolProp:
 
     def compare(self, cfg, status, schedule, steps, env):
         """returns None or (step index, model line, impl line)"""
+        if status.startswith(("stuck:", "scheduler:")):
+            return len(steps), "<the model's threads always reach their next visible operation>", status
         out = core.run_driver(self.model_name, ["reset"] + self.model_lines(cfg, schedule))[1:]
         if out[0] != "ok":
             raise HarnessError("pool model rejected the configuration: " + cfg.model_line())
@@ -206,8 +209,11 @@ class PoolProp:
             if impl != ml:
                 return i, ml, impl
         fin = self.impl_final(cfg, env, status)
-        if fin != out[-1]:
-            return len(steps), out[-1], fin
+        mfin = out[-1]
+        if getattr(cfg, "none_inputs", False):
+            fin, mfin = (" ".join(w for w in x.split(" ") if not w.startswith("out:")) for x in (fin, mfin))
+        if fin != mfin:
+            return len(steps), mfin, fin
         return None
 
     def impl_final(self, cfg, env, status):
@@ -215,6 +221,8 @@ class PoolProp:
         for k, ((n, cs, ordered), res) in enumerate(zip(cfg.calls, env.results)):
             seen = []
             for v in res:
+                if v is None:
+                    continue
                 item = (v - 1) // 2 - k * 1000
                 ch = item // cs
                 if not seen or seen[-1] != ch:
@@ -236,6 +244,8 @@ class PoolProp:
     # ---- oracles ---------------------------------------------------------------------------------------------------------
     def oracle(self, cfg, env, status, steps):
         """property judged on the implementation's run: None or (description, signature)"""
+        if status.startswith(("stuck:", "scheduler:")):
+            return None  # the run could not be controlled: nothing observed about the property (compare() reports it)
         faults = bool(cfg.begin_fault or cfg.item_fault)
         if status.startswith("error:"):
             return (f"a pool thread raised: {status}", "thread-error")
@@ -345,8 +355,13 @@ class PoolProp:
         corr_fail = None
         known_hits = {}
         total_steps = 0
+        uncontrolled = 0
         for cfg, desc, ch, label in runs:
+            if uncontrolled >= 2:
+                break  # the code under test blocks outside the simulated primitives: further schedules tell nothing more
             env, status, schedule, steps = self.run_sim(cfg, ch)
+            if status.startswith(("stuck:", "scheduler:")):
+                uncontrolled += 1
             total_steps += len(steps)
             case = {"cfg": cfg.to_json(), "chooser": list(desc), "schedule": schedule, "label": label, "status": status}
             nontrivial = self.nontrivial(cfg, schedule)
@@ -372,8 +387,12 @@ class PoolProp:
                 if diff is not None:
                     corr_fail = (case, diff)
         report.extra["steps_compared"] = total_steps
-        if tier == "thorough" and prop_fail is None:
-            soak = self.real_process_soak(report)
+        if prop_fail is None:
+            # real processes and real multiprocessing primitives (what the controlled scheduler replaces): a few scenarios in
+            # the quick tier, all of them in the thorough tier and whenever the correspondence or a proof no longer checks
+            broken = corr_fail is not None or not proofs.ok
+            soak = self.real_process_soak(report, self.real_scenarios if (tier == "thorough" or broken)
+                                          else self.real_scenarios_quick)
             if soak is not None:
                 prop_fail = soak
 
@@ -397,6 +416,10 @@ class PoolProp:
                 desc, ch = self.gen_chooser(srng)
                 env, status, schedule, steps = self.run_sim(cfg, ch)
                 report.evaluations += 1
+                if status.startswith(("stuck:", "scheduler:")):
+                    uncontrolled += 1
+                    if uncontrolled >= 4:
+                        break
                 verdict = self.oracle(cfg, env, status, steps)
                 if verdict is not None and verdict[1] not in known:
                     found = ({"cfg": cfg.to_json(), "chooser": list(desc), "schedule": schedule, "label": "search",
@@ -449,21 +472,23 @@ class PoolProp:
         return case
 
     real_scenarios = ()
+    real_scenarios_quick = ()
+    real_module = "harness.realpool"
 
-    def real_process_soak(self, report):
+    def real_process_soak(self, report, scenarios):
         """real multiprocessing runs under a wall-clock watchdog (process group killed); a scenario is a failure only if it
         fails three times out of three"""
         import signal
         import subprocess
         import sys as _sys
         results = {}
-        for name in self.real_scenarios:
+        for name in scenarios:
             outcomes = []
             for attempt in range(3):
-                p = subprocess.Popen([_sys.executable, "-m", "harness.realpool", name], cwd=core.VERIF,
+                p = subprocess.Popen([_sys.executable, "-m", self.real_module, name], cwd=core.VERIF,
                                      stdout=subprocess.PIPE, stderr=subprocess.STDOUT, text=True, start_new_session=True)
                 try:
-                    out, _ = p.communicate(timeout=90)
+                    out, _ = p.communicate(timeout=40)
                     outcomes.append("ok" if (p.returncode == 0 and "DONE" in out) else "wrong:" + out.strip()[-200:])
                 except subprocess.TimeoutExpired:
                     outcomes.append("hang")
@@ -480,6 +505,8 @@ class PoolProp:
                     break
             results[name] = outcomes
             report.count("real:" + outcomes[-1].split(":")[0])
+            if outcomes[-1] != "ok":
+                break  # failed three times out of three: reported below
         report.extra["real_process_runs"] = results
         for name, outcomes in results.items():
             if len(outcomes) == 3 and all(o != "ok" for o in outcomes):
